@@ -318,6 +318,16 @@ func runC10(c *Ctx) {
 	c.omoList("C10")
 	c.omoObj("C10")
 	c.derivedCorners("C10")
+	// keys that contain a sigil next to a key that is their prefix: the path always takes the short key first,
+	// whatever the iteration order of the map (repeated, since Go randomises it)
+	for rep := 0; rep < 16; rep++ {
+		m.Case("prefix-keys")
+		o := m.NewObject(gvStr("a"), m.RefGV(m.NewObject(gvStr("b"), m.RefGV(m.NewObject(gvStr("c"), gvInt(1))))), gvStr("a.b"), m.RefGV(m.NewObject(gvStr("c"), gvInt(2))),
+			gvStr("l"), m.RefGV(m.NewList(gvInt(7))), gvStr("l#0"), gvInt(8), gvStr("a.b.c"), gvInt(3))
+		for _, p := range []string{".a.b.c", ".a.b", ".l#0", ".a", ".l"} {
+			c.readPath(o, p)
+		}
+	}
 	// long lists: indices around every power of two up to 2^16 (width slips in index parsing, size thresholds)
 	m.Case("long-lists")
 	long := m.NewListOf(gvInt(7), 66000)
@@ -331,6 +341,15 @@ func runC10(c *Ctx) {
 			c.readPath(nestedLong, "#0#"+i)
 			c.readPath(nestedLong, "#1.rows#"+i)
 		}
+	}
+	// one- and two-character segments of every ASCII character on a long list (digit tests with a missing bound)
+	for ch := 33; ch < 127; ch++ {
+		if ch == '.' || ch == '#' {
+			continue
+		}
+		c.readPath(long, "#"+string(rune(ch)))
+		c.readPath(long, "#1"+string(rune(ch)))
+		c.readPath(holder, ".rows#"+string(rune(ch)))
 	}
 	c.readPath(long, "#65999")
 	c.readPath(long, "#66000")
